@@ -9,7 +9,11 @@ static const int KINDS[] = {0, 0, 0, 1, 2, 3, 4, 5, 6, 6};
 static long wline(word w) { return vh_def_words(&w, 1); }
 
 /* ------------------------------------------------------------------ move */
-enum { M_ADD, M_ADD_CA, M_ADD_CB, M_ADD_CAB, M__ADD, M_TRANSPOSE, M_TRANSPOSE2, M_COPY, M_COPY_BIG, M_COPYROW, M_SUBMATRIX, M_CONCAT, M_STACK, M_EXTRACT_U, M_EXTRACT_L, M_SET_UI, M_NOPS };
+/* deterministic per call (the purity comparison of C10 re-runs cases in other environments) */
+static word rnd_state;
+static word rnd_cb(void *data) { (void)data; rnd_state = rnd_state * 6364136223846793005ULL + 1442695040888963407ULL; return rnd_state | ((word)1 << 63) | 1; }
+
+enum { M_ADD, M_ADD_CA, M_ADD_CB, M_ADD_CAB, M__ADD, M_TRANSPOSE, M_TRANSPOSE2, M_COPY, M_COPY_BIG, M_COPYROW, M_SUBMATRIX, M_CONCAT, M_STACK, M_EXTRACT_U, M_EXTRACT_L, M_SET_UI, M_RANDOMIZE, M_NOPS };
 
 static void move_case(int op, int cap) {
   vh_ev_t e;
@@ -131,6 +135,18 @@ static void move_case(int op, int cap) {
     vh_opnd(&e, "A", 'o', A);
     vh_pre(&e);
     if (VH_CALL(&e)) mzd_set_ui(A, v);
+    VH_END(&e);
+    break;
+  }
+  case M_RANDOMIZE: {
+    /* contents are unspecified; what the properties say is: nothing outside the view changes (C09) and an owner
+     * keeps zero bits beyond its last column (C10) */
+    mzd_t *A = vh_mk_kind(m, n, RK());
+    int custom = vh_randint(0, 1);
+    vh_begin(&e, custom ? "randomize_custom" : "randomize");
+    vh_opnd(&e, "A", 'o', A);
+    vh_pre(&e);
+    if (VH_CALL(&e)) { rnd_state = 0x9E3779B97F4A7C15ULL + (word)m * 131 + (word)n; srandom(12345u + (unsigned)m * 7u + (unsigned)n); if (custom) mzd_randomize_custom(A, rnd_cb, NULL); else mzd_randomize(A); }
     VH_END(&e);
     break;
   }
@@ -338,8 +354,13 @@ static void rowops_step(mzd_t *A) {
     if (which == 4) { len = range; }
     mzp_t *P = mzp_init(len);
     perm_fill(P, len, len, vh_randint(0, 3));
-    static const char *nm[] = {"apply_p_left", "apply_p_left_trans", "apply_p_right", "apply_p_right_trans", "apply_p_right_trans_tri", "apply_p_right"};
+    static const char *nm[] = {"apply_p_left", "apply_p_left_trans", "apply_p_right", "apply_p_right_trans", "apply_p_right_trans_tri", "apply_p_right",
+                               "apply_p_right_capped", "apply_p_right_trans_capped"};
+    /* the "capped" variants (rows from start_row on only; start_col = 0 as in the library's own use) */
+    int sr = 0;
+    if (which == 5 && vh_randint(0, 2)) { which = 6 + vh_randint(0, 1); sr = vh_pick((int[]){0, 1, m / 2, m - 1, m}, 5); }
     vh_begin(&e, nm[which]);
+    if (which >= 6) vh_pi(&e, "sr", sr);
     vh_pa(&e, "P", P->values, len);
     vh_opnd(&e, "A", 'b', A); vh_pre(&e);
     if (VH_CALL(&e)) {
@@ -349,6 +370,8 @@ static void rowops_step(mzd_t *A) {
       case 2: case 5: mzd_apply_p_right(A, P); break;
       case 3: mzd_apply_p_right_trans(A, P); break;
       case 4: mzd_apply_p_right_trans_tri(A, P); break;
+      case 6: mzd_apply_p_right_even_capped(A, P, sr, 0); break;
+      case 7: mzd_apply_p_right_trans_even_capped(A, P, sr, 0); break;
       }
     }
     VH_END(&e); vh_post(&e);
